@@ -20,8 +20,14 @@ the truncation). MERGE-DONE - values read from disk flow only into the merge
 function, whose every store is reached only through a status == DONE test
 (CFG paths); no bulk update. RUN-PATH - the run command obtains its initial
 environment from read_env.
-Not decided: pickle round-trip equality of what was written; atomicity of the
-write (the property does not need it: a bad file means not-done).
+WRITE-ALL - the writer (write_env) visits every entry and skips one only for
+lack of an output directory, never on its status (a task that is not DONE any
+more must overwrite the file of an earlier run). WRITE-INVALIDATE -
+Env.to_file opens the destination path itself in 'wb' mode (truncation
+first) and does not rename a side file over it: an interrupted write leaves
+an unreadable file, i.e. not-done, never the stale entry of an earlier run
+(the property quantifies over write / crash-during-write / read sequences).
+Not decided: pickle round-trip equality of what was written.
 '''
 ASSUMPTIONS = [
     'the failure classes of unpickling a truncated/damaged stream are the '
@@ -33,6 +39,8 @@ ASSUMPTIONS = [
 def check(ctx):
     persist.check_exc_cover(ctx)
     persist.check_merge_done(ctx)
+    persist.check_write_all(ctx)
+    persist.check_write_invalidates(ctx)
     func = ctx.program.func(
         'valjean.cambronne.commands.run:RunCommand.execute')
     src = {}
@@ -128,4 +136,40 @@ def variants(program):
         return False
     out.append(Variant('twin-catch-Exception', 'twin',
                        edit_module(program, envmod, catch_exception)))
+    def write_only_done(tree):
+        fun = find_func(tree, 'write_env')
+        for node in ast.walk(fun):
+            if isinstance(node, ast.For) and 'env.items()' in txt(node.iter):
+                node.body[0:0] = parse_stmts(
+                    "if subenv.get('status') != TaskStatus.DONE:\n"
+                    "    continue")
+                return True
+        return False
+    out.append(Variant('writer-skips-tasks-that-are-not-done', 'mutant',
+                       edit_module(program, 'valjean.cambronne.common',
+                                   write_only_done), {'WRITE-ALL'},
+                       note='seeded C14-1: the stale DONE file of an '
+                            'earlier run is never overwritten'))
+
+    def write_then_rename(tree):
+        fun = find_func(tree, 'Env.to_file')
+        ok = replace_first(
+            fun, lambda n: isinstance(n, ast.Call) and txt(n.func) == 'open'
+            and n.args and txt(n.args[0]) == 'path',
+            lambda n: ast.Call(func=n.func, args=[parse_stmts(
+                "path + '.tmp'")[0].value] + n.args[1:],
+                               keywords=n.keywords))
+        if not ok:
+            return False
+        for node in ast.walk(fun):
+            if isinstance(node, ast.Try):
+                node.body.extend(parse_stmts(
+                    "import os\nos.replace(path + '.tmp', path)"))
+                return True
+        return False
+    out.append(Variant('write-to-side-file-then-rename', 'mutant',
+                       edit_module(program, envmod, write_then_rename),
+                       {'WRITE-INVALIDATE'},
+                       note='seeded C14-2: an interrupted write keeps the '
+                            'DONE entry of an earlier run alive'))
     return out
